@@ -185,7 +185,8 @@ def _leaky_relu_jvp_rule(
 
     one_like_x = jax.lax.broadcast_in_dim(one, x.shape, ())
     slope_like_x = jax.lax.broadcast_in_dim(slope, x.shape, ())
-    deriv = jax.lax.select(jax.lax.gt(x, zero), one_like_x, slope_like_x)
+    # jax.nn.leaky_relu is where(x >= 0, x, slope * x): its derivative at 0 is 1
+    deriv = jax.lax.select(jax.lax.ge(x, zero), one_like_x, slope_like_x)
     tangent_out = jax.lax.mul(x_dot, deriv)
     return primal_out, tangent_out
 
